@@ -30,7 +30,10 @@ Cases (JSON), by "kind":
   P (a Python value) = int | str | {"l":[P..]} (list) | {"t":[P..]} (tuple) | {"d":{key:P}} (dict) | {"o":name} (None, bool,
       float) | {"s":[P..]} (set) | {"dq":[P..]} (collections.deque) | {"od":{key:P}} (OrderedDict) | {"u":{attr:P}} (user object)
 The getter fixture {"tag":i} is `lambda x: (i, x)`: the data of a result spells out which getters were applied in
-which order.  `wild` marks cases outside the well-formedness hypotheses of the theorems (error branches, attribute
+which order.  Further fixtures: {"pairw":i}: x -> (x, {"w": i}); "first": x -> x[0]; {"const":d}: x -> d (None, a falsy
+value, (), nan, an exception object ...); {"sw":[[a,b]..](,"tag":i)}: the scalar a -> b, otherwise x itself resp. (i, x)
+(getters that treat None / falsy values specially).  Data are ints, the scalars {"o":name} (None, booleans, floats, '',
+an exception object as a value), tuples [..] (also empty) and, inside tuples, dictionaries {"ctx":P}.  `wild` marks cases outside the well-formedness hypotheses of the theorems (error branches, attribute
 names that clash with types, ...): they go through the correspondence with the model; of the oracle only the parts
 that need no hypothesis apply to them.
 Not modelled on purpose: lena/variables/functions.py (abs, Cm) — not part of the statement; both raise
@@ -104,6 +107,12 @@ THEOREMS = [
     "Lena.C14.combine_name_reaches_context",
     # constructing a Combine changes none of its arguments (object identities)
     "Lena.C14.Tok.combineInitT_fresh",
+    # seed round I/J: the data of Compose and Sequence agree for ANY getters (no hypothesis; an intermediate None included),
+    # no getter is skipped; every attribute of a typed variable / a typed Combine is under its type, whatever its name
+    "Lena.C14.compose_data_eq_sequence_data",
+    "Lena.C14.compose_applies_every_getter",
+    "Lena.C14.type_subcontext_complete",
+    "Lena.C14.combine_typed_subcontext",
 ]
 # audited too, but not obligations of the property: true by definition of the model (the clauses they stand for are
 # carried by the correspondence and the oracle), soundness of the Boolean checks, and theorems about code that is not in
@@ -150,7 +159,9 @@ TRUSTED = [
     "Combine.__init__ (combineInitT) on every ctor case",
     "dictionaries as slot vectors over the key alphabet of the case (DESIGN.md section 2); copy.deepcopy is the identity on "
     "values and renames every mutable object (values without internal sharing)",
-    "the getter fixture x -> (i, x) on both sides; JSON line protocol encoders (harness/props/c14.py, drivers/C14.lean)",
+    "the getter fixtures (x -> (i, x), constants, case distinctions on scalars) on both sides -- Python closures in the "
+    "harness, Lean functions in drivers/C14.lean (toGetter); data scalars that are not ints as int codes; JSON line protocol "
+    "encoders (harness/props/c14.py, drivers/C14.lean)",
     "attribute values that are mutable but neither list nor dict (set, deque, user object) are held by the model as lists "
     "that start with a tag (the code never looks inside an attribute value; the token model gives them an identity like any "
     "list); an OrderedDict is held as a dictionary (value equality); var.var_context[a] = x and an in-place change of an "
@@ -164,9 +175,25 @@ ASSUMPTIONS = [
     "compose_eq_sequence_full; the proved theorem compose_eq_sequence_partial has the hypothesis NoClash. Such cases are "
     "generated in the non-wild stream; their Compose/Sequence difference and the lost sub-context are reported under the "
     "known signature, every other failure of such a case is a VIOLATION",
-    "getters are total functions of the data (an exception of a user's getter is outside the statement); data are ints, "
-    "tuples and tuples that look like a (data, context) pair (getter fixtures x->(i,x), x->(x,{'w':i}), x->x[0]); "
+    "getters are total functions of the data (an exception RAISED by a user's getter is outside the statement); data are ints, "
+    "scalars that are not ints (None, False, True, 0.0, 1.5, nan, inf, '', an exception object used as a value -- int codes "
+    "beyond +-10^6 in the model, which like the code never looks at data), tuples (also the empty one) and tuples that "
+    "look like a (data, context) pair; getter fixtures x->(i,x), x->(x,{'w':i}), x->x[0], x->d (a constant: None, a falsy "
+    "value, (), nan ...), and finite case distinctions on scalars ('0. if part is None else ...') that otherwise return "
+    "the very object they were given or (i,x); a getter's test of its argument is type-and-value equality (`x is None`, "
+    "an int is not a bool is not a float, nan is nan), only scalars and () are tested for; "
     "_has_context is transcribed (Lean rawValue) and every input is given to the model as the raw value",
+    "JUDGEMENTS of seed round I/J (notes/adversary_C14.md): (I) 'vn.getter(...v1.getter(x)...)' holds for every getter: "
+    "None, falsy values, empty containers, nan are values like any other, a Compose that stops at an intermediate None "
+    "violates sentence 1. (J) 'arbitrary extra attributes': `dim`, `combine` and `variable` are legitimate names of a "
+    "user's attributes of a plain Variable and of a Compose (lena sets dim/combine in Combine only, variable nowhere); "
+    "they are generated in the non-wild stream and every clause of the oracle applies to them (they are outside the "
+    "Boolean hypothesis kwOKb of the Lean theorems about expressions, so spec_wf is false for them; the theorems "
+    "type_subcontext_complete / types_persist / earlier_types_persist have no such restriction). Out of scope stay: "
+    "`dim`/`combine` as keywords of a Combine (dim is refused by an assert, combine overwritten: they are lena's there), "
+    "`compose` (the key the statement itself defines), `name`/`type`/`getter` (parameters of the constructors). For a "
+    "Combine with a type, 'its attributes' are its public var_context (name, keywords, dim, combine): all of them must be "
+    "under its type",
     "contexts hold ints, None/bool/float (opaque scalars: encoded as int codes beyond +-10^6 in the model, which observes "
     "them like the code does -- truthiness, hashability, 'not a str/list/dict'), strings, lists, tuples and string-keyed "
     "dictionaries; a `type` is a string; attribute names come from a pool with the documented names (latex_name, unit, "
@@ -222,14 +249,19 @@ RULE = ("Every chain case: Sequence and Compose on every value twice, then on on
         "'ta', with and without an attribute, x 7 input values (bare, context without variable, untyped variable, typed "
         "variable, composed variable, typed-then-untyped variable, composed variable whose type equals a chain type); Combine "
         "of 1..4 leaves x typed/untyped pattern x name/type keyword, alone and between typed variables; Compose with keywords; "
-        "chains whose getters return / consume data that looks like a (data, context) pair, on raw pair-shaped inputs; the "
+        "chains whose getters return / consume data that looks like a (data, context) pair, on raw pair-shaped inputs; "
+        "for each of 11 data scalars (None, False, 0, 0.0, '', (), nan, an exception object, True, 1, 1.5) 7 chains whose getters "
+        "return it / map it to another value / return the object they were given, in chains, Compose and Combine, on inputs "
+        "that are that scalar too; attributes named dim / combine / variable on typed and untyped variables and Compose, "
+        "Combine with a type between typed variables; the "
         "documented attributes latex_name/unit/range (also None/bool/float values) on every variable of a chain; one Variable "
         "object used twice (Sequence(v,v), Compose(v,w,v), Sequence(v,Compose(v,w)), Combine(v,v)); attributes named like a type "
         "(known finding); attribute values that are sets, deques, OrderedDicts, user objects, falsy values; names '', 'x y', "
         "'0', '_', duplicates for variables and Combine; Compose of ONE variable with keywords, alone and in chains. Seeded "
         "random chains of 1..5 expressions (leaves, nested Compose/Combine to depth 2 below the chain, "
         "attributes from a pool of 8 names with nested values incl. None/bool/float/nan/inf/set/deque/OrderedDict/user object, "
-        "3 getter fixtures, int / tuple / pair-shaped data, 5% attributes named like a type, 12% shared objects, 10% a "
+        "5 getter fixtures (28% constants / case distinctions on None, falsy values, (), nan), int / scalar / tuple / pair-shaped "
+        "data, 5% attributes named like a type, 6% named dim/combine/variable, 12% shared objects, 10% a "
         "documented attribute on every leaf, 6% odd names; quick 1200, thorough 40000) and 'wild' cases (quick 800, thorough 30000: reserved words as types and attribute names, "
         "non-list compose, non-dict context.variable, bad getters, non-Variable arguments, empty Compose/Combine, "
         "getter/dim/type/name keywords); every value applied twice. attr: every index -n-2..n+1 of Combine of 1..4 variables, "
